@@ -25,7 +25,12 @@ Record rc := mk_rc {
 Definition kInputBuffer : nat := 16384.
 Definition is_nil {A : Type} (l : list A) : bool := match l with [] => true | _ => false end.
 
-(* ReadFactory(fd, raw_amount, already_data, already_size, ...): top the header up to kMagicSize bytes *)
+(* DetectMagic: gzip 1f 8b, bzip2 "BZh", xz fd "7zXZ" 00 *)
+Definition magic_ok (h : list N) : bool :=
+  starts_with [31; 139]%N h || starts_with [66; 90; 104]%N h || starts_with [253; 55; 122; 88; 90; 0]%N h.
+
+(* ReadFactory(fd, raw_amount, already_data, already_size, ...): top the header up to kMagicSize bytes: the bytes read are
+   appended AFTER the left-over ones (ReadOrEOF(fd, &header[original], kMagicSize - original)) *)
 Definition open_member (s : rc) : rc :=
   if length (r_in s) <? kMagicSize then
     let '(g, d, o) := read_or_eof (kMagicSize - length (r_in s)) (r_fd s) (r_fdo s) in
@@ -68,6 +73,10 @@ Definition rc_step (amount : nat) (s : rc) : sres :=
       if is_nil (m_comp m') && is_nil (m_plain m') then
         (* end of the member: ReplaceThis(ReadFactory(fd, next_in, avail_in, true)) *)
         let s3 := open_member (mk_rc ms in' (r_fd s1) (r_fdo s1) deco') in
+        (* the header examined: empty -> Complete; a known magic -> the next decompressor; anything else ->
+           CompressedException "Uncompressed data detected after a compresssed file" (require_compressed) *)
+        if negb (is_nil (r_in s3)) && negb (magic_ok (firstn kMagicSize (r_in s3))) then SErr
+        else
         match out with
         | [] => SCont s3                  (* return Current(thunk)->Read(to, amount, thunk) *)
         | _ :: _ => SDone out s3
